@@ -240,10 +240,46 @@ template <typename T> void assignment_mode() {
     }
     if constexpr (std::is_same_v<T, vs::Counted>) vs::Counted::expect_balanced("C01.instances");
 }
+// ---- the move-assignment races with a call of the same promise object from another thread (both work on the promise's atomic owner
+// pointer): the call hits the old future, the new one, or nothing - never a future that has already been resolved
+template <typename T> void assignment_race_mode() {
+    int nwait = 1 + dsim::choose(2); int wk[2]; for (int i = 0; i < nwait; i++) wk[i] = dsim::choose(2);
+    dsim::plan_note("assignment races with a call of the same promise: waiters=%d", nwait);
+    {
+        cocls::future<T> f_old, f_new;
+        cocls::promise<T> p = f_old.get_promise();
+        std::vector<std::thread> th;
+        for (int i = 0; i < nwait; i++) th.emplace_back([&, i] { if (wk[i]) coro_waiter<T>(f_old, i, 0).join(); else { f_old.sync(); observe(f_old, i); } });
+        cocls::promise<T> other = f_new.get_promise();
+        bool rival_ok = false;
+        std::thread rival([&] { if constexpr (std::is_void_v<T>) rival_ok = p(); else rival_ok = Tr<T>::resolve(p, 55); });
+        p = std::move(other);
+        rival.join();
+        if (!f_old.ready()) dsim::fail("C01.assignment_forgets_future", "a promise owning a pending future was overwritten by move-assignment and the old future is still pending");
+        for (auto &t : th) t.join();
+        observe(f_old, 8);
+        long k_old = dsim::cell_get(WAIT_KIND + 8), v_old = dsim::cell_get(WAIT_VAL + 8);
+        for (int i = 0; i < nwait; i++) if (dsim::cell_get(WAIT_KIND + i) != k_old || dsim::cell_get(WAIT_VAL + i) != v_old)
+            dsim::fail("C01.result_changed", "waiter %d of the old future was woken with kind %ld value %ld, the future now holds kind %ld value %ld", i, dsim::cell_get(WAIT_KIND + i), dsim::cell_get(WAIT_VAL + i), k_old, v_old);
+        bool in_old = k_old == K_VALUE;
+        if (k_old != K_VALUE && k_old != K_NOVALUE) dsim::fail("C01.result_mismatch", "old future ended with kind %ld", k_old);
+        if (in_old && !std::is_void_v<T> && v_old != 55) dsim::fail("C01.result_mismatch", "old future holds %ld, the only value offered to it was 55", v_old);
+        bool ok2; if constexpr (std::is_void_v<T>) ok2 = p(); else ok2 = Tr<T>::resolve(p, 77);
+        if (!f_new.ready()) dsim::fail("C01.no_winner", "the new future is pending although its promise was called");
+        observe(f_new, 9);
+        bool in_new = !ok2;          // the assigned promise is refused only when the racing call had already reached the new future
+        if (dsim::cell_get(WAIT_KIND + 9) != K_VALUE || (!std::is_void_v<T> && dsim::cell_get(WAIT_VAL + 9) != (ok2 ? 77 : 55))) dsim::fail("C01.result_mismatch", "new future holds kind %ld value %ld (call of the assigned promise accepted: %d)", dsim::cell_get(WAIT_KIND + 9), dsim::cell_get(WAIT_VAL + 9), (int)ok2);
+        if (in_old && in_new) dsim::fail("C01.two_winners", "one call resolved both the old and the new future");
+        if (rival_ok != (in_old || in_new)) dsim::fail(rival_ok ? "C01.winner_without_effect" : "C01.loser_left_trace", "the racing call reported %d; old future has its value: %d, new future has its value: %d", (int)rival_ok, (int)in_old, (int)in_new);
+    }
+    if constexpr (std::is_same_v<T, vs::Counted>) vs::Counted::expect_balanced("C01.instances");
+}
 } // namespace
 
 void dsim_scenario() {
-    if (dsim::choose(6) == 5) { int t = dsim::choose(3); if (t == 0) assignment_mode<long>(); else if (t == 1) assignment_mode<void>(); else assignment_mode<vs::Counted>(); return; }
+    if (dsim::choose(6) == 5) { int t = dsim::choose(3); bool race = dsim::flip();
+        if (race) { if (t == 0) assignment_race_mode<long>(); else if (t == 1) assignment_race_mode<void>(); else assignment_race_mode<vs::Counted>(); return; }
+        if (t == 0) assignment_mode<long>(); else if (t == 1) assignment_mode<void>(); else assignment_mode<vs::Counted>(); return; }
     int ty = dsim::choose(5);
     switch (ty) {
     case 0: dsim::plan_note("T=long "); run<long>(); break;
